@@ -173,6 +173,12 @@ def handle (j : Json) : IO Unit := do
     match pickFailure fails with
     | some (sig, note) => emit case agree false (reqBranch r implOk) sig note (if agree then Json.null else modelJ)
     | none => emit case agree true (reqBranch r implOk) "" (if agree then "" else "model differs") (if agree then Json.null else modelJ)
+  | "shared" =>
+    -- one translator, many clients at once: the translation is a function of the request (`translate` has no other input)
+    let impl := jget j "impl"
+    let mm := jnat (jget impl "mismatches")
+    emit case (mm == 0) (mm == 0) "shared-translator" (if mm == 0 then "" else "translation-depends-on-other-clients-requests")
+      (if mm == 0 then "" else s!"{mm} of {jnat (jget j "clients") * jnat (jget j "rounds")} concurrent translations differ from the translation of the same request alone; first: {jstr (jget impl "first")}")
   | "malformed" =>
     let why := jstr (jget j "why")
     let implOk := jbool (jget impl "ok")
